@@ -267,6 +267,18 @@ Definition judge (op : bytes) (args : list val) (out : val) : verdict :=
             else JSkip
         | None => JSkip end
     | _ => JSkip end
+  else if op_is op "z.opdays" then
+    (* the operator form of day stepping: the wall-clock date moves by n days, time of day (a leap
+       fraction included) kept; the value of the checked form, PANIC where that reports nothing *)
+    match args with
+    | [a; VInt sign; VInt n] =>
+        match z_of_arg a with
+        | Some (u, f, off) =>
+            if ((sign =? 1) || (sign =? -1)) && in_u64 n
+            then moved (fun v => v) VPanic u off (u + off + sign * n * DAY) f out
+            else JSkip
+        | None => JSkip end
+    | _ => JSkip end
   else if op_is op "z.conv" then z_1 (fun u f _ => VTup [enc_z u f 0; enc_z u f 0]) args out
   else if op_is op "z.pcmp" then z_2 (fun a b o => judge_eq (exp_pcmp a b) o) args out
   else if op_is op "z.uml" then
